@@ -59,6 +59,7 @@ func MakeOverlay(pkgDir, dir string) (string, error) {
 type rewriter struct {
 	n      int
 	spawnN int
+	selN   int
 	err    error
 }
 
@@ -187,6 +188,18 @@ func isUnlock(e ast.Expr) bool {
 	return ok && (sel.Sel.Name == "Unlock" || sel.Sel.Name == "RUnlock")
 }
 
+func isWait(e ast.Expr) bool {
+	c, ok := e.(*ast.CallExpr)
+	if !ok {
+		return false
+	}
+	if isPkgSel(c.Fun, "time", "Sleep") {
+		return true
+	}
+	sel, ok := c.Fun.(*ast.SelectorExpr)
+	return ok && len(c.Args) == 0 && sel.Sel.Name == "Wait"
+}
+
 func hasRecv(n ast.Node) bool {
 	found := false
 	ast.Inspect(n, func(m ast.Node) bool {
@@ -213,11 +226,19 @@ func (rw *rewriter) rewriteList(list []ast.Stmt) []ast.Stmt {
 			out = append(out, yieldStmt(), s, yieldStmt())
 		case *ast.SelectStmt:
 			rw.n++
+			ncomm := 0
 			for _, c := range s.Body.List {
 				cc := c.(*ast.CommClause)
 				if cc.Comm != nil { // not the default clause
 					cc.Body = append([]ast.Stmt{yieldStmt()}, cc.Body...)
+					ncomm++
 				}
+			}
+			if ncomm >= 2 {
+				// which of several ready cases runs is the Go runtime's random choice:
+				// make it the scheduler's
+				out = append(out, rw.seededSelect(s, ncomm))
+				continue
 			}
 			out = append(out, yieldStmt(), s)
 		case *ast.GoStmt:
@@ -236,6 +257,13 @@ func (rw *rewriter) rewriteList(list []ast.Stmt) []ast.Stmt {
 			decl := &ast.AssignStmt{Lhs: []ast.Expr{ast.NewIdent(id)}, Tok: token.DEFINE, Rhs: []ast.Expr{call("verifSpawn")}}
 			out = append(out, &ast.BlockStmt{List: []ast.Stmt{decl, s}})
 		case *ast.ExprStmt, *ast.AssignStmt:
+			if es, ok := s.(*ast.ExprStmt); ok && isWait(es.X) {
+				// woken from a wait group, a condition variable, a child process or a timer:
+				// re-enter the seeded schedule before anything else happens
+				rw.n++
+				out = append(out, s, yieldStmt())
+				continue
+			}
 			if es, ok := s.(*ast.ExprStmt); ok && isUnlock(es.X) {
 				// releasing a lock is a point where another goroutine may get ahead
 				rw.n++
@@ -253,6 +281,142 @@ func (rw *rewriter) rewriteList(list []ast.Stmt) []ast.Stmt {
 		}
 	}
 	return out
+}
+
+// seededSelect takes the choice among several ready clauses of a select away from the Go
+// runtime. A select with n >= 2 communication clauses becomes
+//
+//	{
+//		c0 := <channel operand 0>; c1 := ...           // evaluated once, in source order
+//		v0, ok0 := verifZero(c0), false                 // one pair per receive clause
+//		got := -1
+//		start := verifSelect(n)                         // yields, then draws from the actor's stream
+//		for try := 0; try < n && got < 0; try++ {       // probe one clause at a time, without blocking
+//			switch (start + try) % n {
+//			case 0: select { case v0, ok0 = <-c0: got = 0; default: }
+//			case 1: select { case c1 <- x: got = 1; default: }
+//			}
+//		}
+//		if got < 0 {                                    // only without a default clause: block on all
+//			select { case v0, ok0 = <-c0: got = 0; case c1 <- x: got = 1 }
+//		}
+//		switch got {
+//		case 0: v, ok := v0, ok0; <body 0>
+//		case 1: <body 1>
+//		default: <body of the default clause>
+//		}
+//	}
+//
+// Actors run one at a time, so the set of ready clauses is fixed while the probes run, and a
+// blocked select is woken by the first single action of another actor. break inside a body
+// leaves the switch as it left the select; continue keeps its target. A send value is
+// evaluated at every attempt.
+func (rw *rewriter) seededSelect(s *ast.SelectStmt, n int) ast.Stmt {
+	rw.selN++
+	pre := fmt.Sprintf("verifSel%d", rw.selN)
+	id := func(x string) *ast.Ident { return ast.NewIdent(pre + x) }
+	lit := func(i int) ast.Expr { return &ast.BasicLit{Kind: token.INT, Value: fmt.Sprint(i)} }
+	define := func(e ast.Expr, names ...ast.Expr) ast.Stmt {
+		return &ast.AssignStmt{Lhs: names, Tok: token.DEFINE, Rhs: []ast.Expr{e}}
+	}
+	setGot := func(i int) ast.Stmt {
+		return &ast.AssignStmt{Lhs: []ast.Expr{id("Got")}, Tok: token.ASSIGN, Rhs: []ast.Expr{lit(i)}}
+	}
+	var list []ast.Stmt
+	var probes, blocking, bodies []ast.Stmt
+	var def *ast.CommClause
+	i := 0
+	for _, c := range s.Body.List {
+		cc := c.(*ast.CommClause)
+		if cc.Comm == nil {
+			def = cc
+			continue
+		}
+		cv := id(fmt.Sprintf("C%d", i))
+		var comm ast.Stmt
+		var head []ast.Stmt
+		switch st := cc.Comm.(type) {
+		case *ast.SendStmt:
+			list = append(list, define(st.Chan, cv))
+			comm = &ast.SendStmt{Chan: cv, Value: st.Value}
+		default:
+			var u *ast.UnaryExpr
+			var as *ast.AssignStmt
+			switch st := cc.Comm.(type) {
+			case *ast.ExprStmt:
+				u = recvOf(st.X)
+			case *ast.AssignStmt:
+				if len(st.Rhs) == 1 {
+					u = recvOf(st.Rhs[0])
+					as = st
+				}
+			}
+			if u == nil {
+				rw.err = fmt.Errorf("select clause of a form the instrumenter does not know")
+				return s
+			}
+			vv, ok := id(fmt.Sprintf("V%d", i)), id(fmt.Sprintf("Ok%d", i))
+			list = append(list, define(u.X, cv))
+			list = append(list, &ast.AssignStmt{Lhs: []ast.Expr{vv, ok}, Tok: token.DEFINE,
+				Rhs: []ast.Expr{call("verifZero", cv), ast.NewIdent("false")}})
+			comm = &ast.AssignStmt{Lhs: []ast.Expr{vv, ok}, Tok: token.ASSIGN,
+				Rhs: []ast.Expr{&ast.UnaryExpr{Op: token.ARROW, X: cv}}}
+			head = append(head, &ast.AssignStmt{Lhs: []ast.Expr{ast.NewIdent("_"), ast.NewIdent("_")}, Tok: token.ASSIGN, Rhs: []ast.Expr{vv, ok}})
+			if as != nil {
+				rhs := []ast.Expr{vv, ok}[:len(as.Lhs)]
+				head = append(head, &ast.AssignStmt{Lhs: as.Lhs, Tok: as.Tok, Rhs: rhs})
+			}
+		}
+		probes = append(probes, &ast.CaseClause{List: []ast.Expr{lit(i)}, Body: []ast.Stmt{
+			&ast.SelectStmt{Body: &ast.BlockStmt{List: []ast.Stmt{
+				&ast.CommClause{Comm: comm, Body: []ast.Stmt{setGot(i)}},
+				&ast.CommClause{},
+			}}}}})
+		blocking = append(blocking, &ast.CommClause{Comm: comm, Body: []ast.Stmt{setGot(i)}})
+		bodies = append(bodies, &ast.CaseClause{List: []ast.Expr{lit(i)}, Body: append(head, cc.Body...)})
+		i++
+	}
+	list = append(list,
+		define(lit(-1), id("Got")),
+		define(call("verifSelect", lit(n)), id("Start")),
+		&ast.ForStmt{
+			Init: define(lit(0), id("Try")),
+			Cond: &ast.BinaryExpr{
+				X:  &ast.BinaryExpr{X: id("Try"), Op: token.LSS, Y: lit(n)},
+				Op: token.LAND,
+				Y:  &ast.BinaryExpr{X: id("Got"), Op: token.LSS, Y: lit(0)}},
+			Post: &ast.IncDecStmt{X: id("Try"), Tok: token.INC},
+			Body: &ast.BlockStmt{List: []ast.Stmt{&ast.SwitchStmt{
+				Tag: &ast.BinaryExpr{
+					X:  &ast.ParenExpr{X: &ast.BinaryExpr{X: id("Start"), Op: token.ADD, Y: id("Try")}},
+					Op: token.REM, Y: lit(n)},
+				Body: &ast.BlockStmt{List: probes}}}},
+		})
+	if def == nil {
+		list = append(list, &ast.IfStmt{
+			Cond: &ast.BinaryExpr{X: id("Got"), Op: token.LSS, Y: lit(0)},
+			Body: &ast.BlockStmt{List: []ast.Stmt{&ast.SelectStmt{Body: &ast.BlockStmt{List: blocking}}}}})
+		// keeps the statement terminating where the select was (and cannot be reached)
+		bodies = append(bodies, &ast.CaseClause{Body: []ast.Stmt{&ast.ExprStmt{X: call("panic", &ast.BasicLit{Kind: token.STRING, Value: `"verif: select without a chosen clause"`})}}})
+	} else {
+		bodies = append(bodies, &ast.CaseClause{Body: def.Body})
+	}
+	list = append(list, &ast.SwitchStmt{Tag: id("Got"), Body: &ast.BlockStmt{List: bodies}})
+	return &ast.BlockStmt{List: list}
+}
+
+func recvOf(e ast.Expr) *ast.UnaryExpr {
+	for {
+		if p, ok := e.(*ast.ParenExpr); ok {
+			e = p.X
+			continue
+		}
+		break
+	}
+	if u, ok := e.(*ast.UnaryExpr); ok && u.Op == token.ARROW {
+		return u
+	}
+	return nil
 }
 
 var (
@@ -325,6 +489,7 @@ import (
 // that package initialisation works before the harness installs its own.
 type VerifHooks struct {
 	Yield   func()
+	Select  func(n int) int
 	Spawn   func() uint64
 	Enter   func(uint64)
 	Exit    func()
@@ -336,6 +501,7 @@ type VerifHooks struct {
 
 var verifH = VerifHooks{
 	Yield:   func() { runtime.Gosched() },
+	Select:  func(int) int { runtime.Gosched(); return 0 },
 	Spawn:   func() uint64 { return 0 },
 	Enter:   func(uint64) {},
 	Exit:    func() {},
@@ -349,7 +515,12 @@ var verifH = VerifHooks{
 func VerifInstall(h VerifHooks) { verifH = h }
 
 func verifYield()                              { verifH.Yield() }
+func verifSelect(n int) int                    { return verifH.Select(n) }
 func verifSpawn() uint64                       { return verifH.Spawn() }
+
+// verifZero gives a variable of a channel's element type to receive into.
+func verifZero[T any](c <-chan T) (z T) { return }
+
 func verifEnter(id uint64)                     { verifH.Enter(id) }
 func verifExit()                               { verifH.Exit() }
 func verifStart(c *exec.Cmd) error             { return verifH.Start(c) }
